@@ -13,7 +13,20 @@ import (
 func init() {
 	Registry["C04"] = func(c *Ctx) error { return gcDrive(c, gcScenariosC04(c)) }
 	Registry["C05"] = func(c *Ctx) error { return gcDrive(c, gcScenariosC05(c)) }
-	Registry["C07"] = func(c *Ctx) error { return gcDrive(c, gcScenariosC07(c)) }
+	Registry["C07"] = func(c *Ctx) error {
+		// the subscriber decorator on its own, at the grain of its goroutines (spec/SubDecorator.tla): in these runs Close comes
+		// only after every cancelled subscription's output channel was closed -- a cancel completes without anybody's help
+		TD := c.Trace("SubDecoratorTrace")
+		n := c.Pick(90, 3000)
+		druns := make([]*tr.Run, n)
+		for i := range druns {
+			druns[i] = TD.NewRun("decorator-conformance", nil)
+			druns[i].Key = fmt.Sprintf("decorator-conformance/%d", i)
+		}
+		Parallel(n, func(i int) { subdecRun(druns[i], c.SubRng(5000+i), i%3 != 2) })
+		c.AddStat("decorator_conformance_runs", n)
+		return gcDrive(c, gcScenariosC07(c))
+	}
 	Registry["C11"] = func(c *Ctx) error { return gcDrive(c, gcScenariosC11(c)) }
 }
 
@@ -100,6 +113,14 @@ func gcScenariosC04(c *Ctx) []gcScenario {
 					}
 				}
 			}
+		}
+	}
+	// messages without metadata: what one subscriber writes into its copy is its own business
+	for _, per := range []bool{false, true} {
+		for _, blk := range []bool{false, true} {
+			scs = append(scs, gcScenario{Class: "no-metadata/" + gcCfgName(per, blk, 1), Persistent: per, Blocking: blk, Buffer: 1, NoMeta: true,
+				Subs: []gcSub{{Name: "s1", Topic: "t1", Behav: "mutate"}, {Name: "s2", Topic: "t1", Behav: "nack1"}, {Name: "s3", Topic: "t1", Behav: "ack", Phase: 2}},
+				Pubs: []gcPub{{Name: "p1", Topic: "t1", N: 2}}})
 		}
 	}
 	// forced Publish/Subscribe overlaps
@@ -382,6 +403,20 @@ func gcScenariosC11(c *Ctx) []gcScenario {
 				Pubs: []gcPub{{Name: "p0", Topic: "t1", N: 2}},
 				Gate: &gcGate{Point: pt, ID: "s:s2", Event: "publish:t1"}})
 		}
+	}
+	// some subscriptions (not the most recent ones) are cancelled while the publishers go on: the remaining ones still get each message once
+	for i := 0; i < c.Pick(6, 100); i++ {
+		sc := gcScenario{Class: "unsubscribe-others", Persistent: true, Blocking: i%3 == 1, Buffer: i % 2}
+		for k := 0; k < 5; k++ {
+			sb := gcSub{Name: fmt.Sprintf("s%d", k+1), Topic: "t1", Behav: "ack"}
+			if k == i%3 {
+				sb.CancelAt = 1
+			}
+			sc.Subs = append(sc.Subs, sb)
+		}
+		sc.Subs = append(sc.Subs, gcSub{Name: "s9", Topic: "t1", Behav: "ack", Phase: 2})
+		sc.Pubs = []gcPub{{Name: "p1", Topic: "t1", N: 4}, {Name: "p2", Topic: "t1", N: 3}}
+		scs = append(scs, sc)
 	}
 	// messages that share one UUID (a requeued message, a re-published copy) are messages in their own right
 	for _, buf := range []int{0, 2} {
